@@ -223,7 +223,12 @@ Check(e) ==
                 ELSE IF (e.exit = 0) # (o.exit = 0) THEN "exit-status:stage-" \o o.stage
                 ELSE IF (e.nfiles > 0) # o.files THEN "output-files:stage-" \o o.stage
                 ELSE IF e.exit # 0 /\ e.ndiag = 0 THEN "refusal-without-diagnostic"
-                ELSE IF o.files /\ {e.funcs[x] : x \in 1..Len(e.funcs)} # o.funcs THEN "functions-generated"
+                \* e.funcs lists the own name of every message that got an encoder and a decoder, once per message:
+                \* a name selects EVERY message of that name, in whatever scope it is declared
+                ELSE IF o.files /\ \E n \in names \cup {e.funcs[x] : x \in 1..Len(e.funcs)} :
+                            Cardinality({x \in 1..Len(e.funcs) : e.funcs[x] = n})
+                            # (IF n \in o.funcs THEN Cardinality({y \in 1..Len(ds) : ds[y].d = "openMsg" /\ ds[y].name = n}) ELSE 0)
+                     THEN "functions-generated"
                 ELSE IF o.files /\ ~e.funcs_same_text THEN "function-text-differs-from-unfiltered"
                 ELSE IF o.files /\ ~e.decls_same THEN "declarations-differ-from-unfiltered"
                 ELSE ""
